@@ -327,14 +327,24 @@ def l1_recv(pid, tier, seed):
     out["runs"].append({k: r[k] for k in ("cfg", "generated", "distinct", "depth", "violated", "wall", "cached")})
     if not r["violated"]:
         raise CheckError("model self-test: MCRecv.lossy.cfg no longer shows F5/F10 (update known_findings.json and the model)")
-    # the code before fix F15 (PUBREL waits of a lost session re-armed by resend() and not dropped again) MUST fail
-    r = run_model("MCRecv.tla", "MCRecv.f15.cfg", ["Recv.tla", "MCRecv.tla"], workers=8)
-    out["runs"].append({k: r[k] for k in ("cfg", "generated", "distinct", "depth", "violated", "wall", "cached")})
-    if not r["violated"]:
-        raise CheckError("model self-test: MCRecv.f15.cfg (stale PUBREL wait of a lost session) was NOT caught by the model invariants")
-    # with the fix, even "the old wait wins" (seeded change r3-c04) is harmless for a conformant broker: must hold
-    r = run_model("MCRecv.tla", "MCRecv.keepold.cfg", ["Recv.tla", "MCRecv.tla"], workers=8)
-    out["runs"].append({k: r[k] for k in ("cfg", "generated", "distinct", "depth", "violated", "wall", "cached")})
+    # must fail: the code before fix F15 (PUBREL waits of a lost session re-armed by resend() and not dropped again), the
+    # code before fix F17 (two operations for one exchange after a PUBREC lost in a send buffer), and the full set of
+    # invariants under silent write loss (the open finding F16: an unsolicited PUBREL is never answered)
+    for bad, what in (("MCRecv.f15.cfg", "stale PUBREL wait of a lost session (F15)"),
+                      ("MCRecv.f17.cfg", "QoS 2 message delivered twice after a lost PUBREC (F17)"),
+                      ("MCRecv.silent.cfg", "unsolicited PUBREL never answered (F16)")):
+        r = run_model("MCRecv.tla", bad, ["Recv.tla", "MCRecv.tla"], workers=8)
+        out["runs"].append({k: r[k] for k in ("cfg", "generated", "distinct", "depth", "violated", "wall", "cached")})
+        if not r["violated"]:
+            raise CheckError("model self-test: %s - %s - was NOT caught by the model invariants" % (bad, what))
+    # must hold: the repaired code under silent write loss (apart from F16), also with "the old wait wins" (seed r3-c04)
+    for good in ("MCRecv.silentok.cfg", "MCRecv.keepold.cfg"):
+        r = run_model("MCRecv.tla", good, ["Recv.tla", "MCRecv.tla"], workers=8)
+        out["states"] += r["distinct"]; out["transitions"] += r["generated"]
+        out["runs"].append({k: r[k] for k in ("cfg", "generated", "distinct", "depth", "violated", "wall", "cached")})
+        for inv in r["violated"]:
+            out["violations"] += 1
+            log("VIOLATION property=%s replay=%s model=%s invariant=%s" % (pid, r["replay"], good, inv))
     out["samples"].append(dict(model="MCRecv.tla", note="inbound QoS 1/2 exchanges, broker retransmission, session loss; one action per handler body"))
     return out
 
